@@ -422,8 +422,14 @@ func (s *server) DropRowRange(ctx context.Context, req *btapb.DropRowRangeReques
 			}
 			return false // stop iteration
 		})
-		for _, r := range rowsToDelete {
-			tbl.rows.Delete(r)
+		// Persistent row stores delete the whole set atomically: a process that dies in the middle of the
+		// request must not leave some of the rows deleted and others not.
+		if b, ok := tbl.rows.(interface{ DeleteAll(keys []keyType) }); ok {
+			b.DeleteAll(rowsToDelete)
+		} else {
+			for _, r := range rowsToDelete {
+				tbl.rows.Delete(r)
+			}
 		}
 	}
 	return &emptypb.Empty{}, nil
